@@ -95,7 +95,17 @@ def apply_op(f, ref, op):
             f[slice(_key(op[1]), _key(op[2]), op[4] if len(op) > 4 else None)] = _val(op[3])
         elif kind == "add":
             other = frame.Frame(op[1], op[2])
-            newf = (f + other) if op[3] == "right" else (other + f)
+            if len(op) > 4 and op[4] == "iadd" and op[3] == "right":
+                # `x += other` is `x = x + other`: a new frame; whoever else holds the old one still sees it unchanged
+                alias = f
+                x = f
+                x += other
+                newf = x
+                if (len(alias), alias.as_integer) != pre_state:
+                    return f, ref, (f"after `x += other` another reference to the old frame reads "
+                                    f"({len(alias)},{alias.as_integer:#x}), it was ({pre_state[0]},{pre_state[1]:#x})")
+            else:
+                newf = (f + other) if op[3] == "right" else (other + f)
         elif kind == "badadd":
             x = _val(op[1])
             got = (f + x) if op[2] == "right" else (x + f)
@@ -371,6 +381,18 @@ def addpairs(desc, res):
                     res.add("legal_writes_checked", 3)
                     if problem:
                         res.violation(vkey(ops[k], problem) + "/after-add", problem, {"case": case, "step": k})
+    # `x += y` and `f += f`
+    from dali import frame as _F
+    for w1 in range(1, 7):
+        for v1 in (0, 1, (1 << w1) - 1, (1 << w1) // 3):
+            f = _F.Frame(w1, v1)
+            keep = f
+            f += f
+            res.evaluations += 1
+            res.add("legal_writes_checked")
+            if (len(keep), keep.as_integer) != (w1, v1) or (len(f), f.as_integer) != (2 * w1, (v1 << w1) | v1):
+                res.violation("C05/add/value/iadd-self", f"f = Frame({w1},{v1:#x}); f += f gives ({len(f)},{f.as_integer:#x}) and the old frame reads "
+                              f"({len(keep)},{keep.as_integer:#x})", {"w": w1, "v": v1})
     for x in ("<none>", "<str>", 1, "<float>", "<bytes>"):
         for side in ("left", "right"):
             case = {"w": 8, "init": 0xff, "ops": [["badadd", x, side]]}
@@ -422,7 +444,7 @@ def gen_history(r, maxw=256):
         elif c < 0.75:
             w2 = r.randint(1, 24)
             if curw + w2 <= maxw:
-                ops.append(["add", w2, r.getrandbits(w2), r.choice(["left", "right"])])
+                ops.append(["add", w2, r.getrandbits(w2), r.choice(["left", "right"])] + (["iadd"] if r.random() < 0.4 else []))
                 curw += w2
         elif c < 0.78:
             ops.append(["badadd", r.choice([1, "<none>", "<str>", "<list>"]), r.choice(["left", "right"])])
